@@ -8,6 +8,7 @@ import Ohsl.Model.Sparse
 import Ohsl.Lemmas.MatIdx
 import Mathlib.Algebra.BigOperators.Intervals
 import Mathlib.Algebra.BigOperators.Ring.Finset
+import Mathlib.Tactic.Ring
 set_option linter.unusedSectionVars false
 set_option linter.unusedVariables false
 set_option linter.unusedSimpArgs false
@@ -156,5 +157,93 @@ theorem gather_loop (rowIndex : Array Nat) (val x : Array K) (c j lo hi : Nat) (
   exact ⟨r', h1, h2, h3⟩
 
 end Loops
+
+section Sums
+variable {K : Type} [CommSemiring K]
+
+/-- component `i` of the sparse product with the vector `j ↦ f j`:
+    `Σ_{j<cols} Σ_{k ∈ [colStart j, colStart (j+1)), rowIndex k = i} val k * f j` -/
+def mulF (s : Sp K) (f : Nat → K) (i : Nat) : K :=
+  ∑ j ∈ Finset.range s.cols, ∑ k ∈ Finset.Ico (s.cs j) (s.cs (j + 1)),
+    if s.ri k = i then s.vl k * f j else 0
+
+/-- component `j` of the transposed sparse product with `i ↦ g i`:
+    `Σ_{k ∈ [colStart j, colStart (j+1))} val k * g (rowIndex k)` -/
+def tmulF (s : Sp K) (g : Nat → K) (j : Nat) : K :=
+  ∑ k ∈ Finset.Ico (s.cs j) (s.cs (j + 1)), s.vl k * g (s.ri k)
+
+/-- entry (i, j) of the matrix the storage denotes (duplicates are summed) -/
+def entry (s : Sp K) (i j : Nat) : K :=
+  ∑ k ∈ Finset.Ico (s.cs j) (s.cs (j + 1)), if s.ri k = i then s.vl k else 0
+
+theorem mulF_eq_entry (s : Sp K) (f : Nat → K) (i : Nat) :
+    mulF s f i = ∑ j ∈ Finset.range s.cols, s.entry i j * f j := by
+  unfold mulF entry
+  refine Finset.sum_congr rfl (fun j _ => ?_)
+  rw [Finset.sum_mul]
+  refine Finset.sum_congr rfl (fun k _ => ?_)
+  split <;> simp
+
+theorem tmulF_eq_entry {s : Sp K} (h : WF s) (g : Nat → K) {j : Nat} (hj : j < s.cols) :
+    tmulF s g j = ∑ i ∈ Finset.range s.rows, s.entry i j * g i := by
+  unfold tmulF entry
+  simp only [Finset.sum_mul]
+  rw [Finset.sum_comm]
+  refine Finset.sum_congr rfl (fun k hk => ?_)
+  have hk' : k < s.nonzero := h.slot_lt hj (Finset.mem_Ico.mp hk).2
+  have hr : s.ri k ∈ Finset.range s.rows := Finset.mem_range.mpr (h.riLt k hk')
+  simp only [ite_mul, zero_mul]
+  rw [Finset.sum_ite_eq (Finset.range s.rows) (s.ri k) (fun i => s.vl k * g i)]
+  simp [hr]
+
+theorem mulF_congr (s : Sp K) {f g : Nat → K} (h : ∀ j, j < s.cols → f j = g j) (i : Nat) :
+    mulF s f i = mulF s g i := by
+  unfold mulF
+  refine Finset.sum_congr rfl (fun j hj => ?_)
+  rw [h j (Finset.mem_range.mp hj)]
+
+theorem mulF_add (s : Sp K) (f g : Nat → K) (i : Nat) :
+    mulF s (fun j => f j + g j) i = mulF s f i + mulF s g i := by
+  simp only [mulF_eq_entry, mul_add, Finset.sum_add_distrib]
+
+theorem mulF_smul (s : Sp K) (f : Nat → K) (a : K) (i : Nat) :
+    mulF s (fun j => f j * a) i = mulF s f i * a := by
+  simp only [mulF_eq_entry, Finset.sum_mul, mul_assoc]
+
+/-- the adjoint identity at the level of sums -/
+theorem sum_mulF_eq_sum_tmulF {s : Sp K} (h : WF s) (f g : Nat → K) :
+    ∑ i ∈ Finset.range s.rows, g i * mulF s f i = ∑ j ∈ Finset.range s.cols, tmulF s g j * f j := by
+  simp only [mulF_eq_entry, Finset.mul_sum]
+  rw [Finset.sum_comm]
+  refine Finset.sum_congr rfl (fun j hj => ?_)
+  rw [tmulF_eq_entry h g (Finset.mem_range.mp hj), Finset.sum_mul]
+  refine Finset.sum_congr rfl (fun i _ => ?_)
+  ring
+
+theorem list_foldl_zipWith (l1 : List K) : ∀ (l2 : List K) (acc : K),
+    List.foldl (· + ·) acc (List.zipWith (· * ·) l1 l2) =
+      acc + ∑ i ∈ Finset.range (min l1.length l2.length), l1[i]?.getD 0 * l2[i]?.getD 0 := by
+  induction l1 with
+  | nil => intro l2 acc; simp
+  | cons a l1 ih =>
+    intro l2 acc
+    cases l2 with
+    | nil => simp
+    | cons b l2 =>
+      have e : min (a :: l1).length (b :: l2).length = min l1.length l2.length + 1 := by
+        simp only [List.length_cons]; omega
+      rw [e, Finset.sum_range_succ']
+      simp only [List.zipWith_cons_cons, List.foldl_cons, ih, List.getElem?_cons_succ,
+        List.getElem?_cons_zero, Option.getD_some]
+      rw [add_assoc, add_comm (a * b)]
+
+/-- the accumulation `result = 0; result += a[i] * b[i]` is the finite sum -/
+theorem foldl_zipWith_eq_sum (a b : Array K) (n : Nat) (ha : a.size = n) (hb : b.size = n) :
+    (Array.zipWith (· * ·) a b).foldl (· + ·) 0 =
+      ∑ i ∈ Finset.range n, a[i]?.getD 0 * b[i]?.getD 0 := by
+  rw [← Array.foldl_toList, Array.toList_zipWith, list_foldl_zipWith]
+  simp [ha, hb]
+
+end Sums
 end Sp
 end Ohsl
